@@ -839,6 +839,15 @@ class RTDCBase(abc.ABC):
                     f"Encountered cyclic basin dependency '{bdict['key']}'",
                     feat_basin.CyclicBasinDependencyFoundWarning)
                 continue
+            if (bdict["type"] in ["file", "internal", "remote"]
+                    and bc[bdict["format"]].basin_type != bdict["type"]):
+                # E.g. a definition of type "remote" with the format "hdf5"
+                # would make us open a local file, even for datasets
+                # that do not allow local basins.
+                warnings.warn(
+                    f"Basin format '{bdict['format']}' does not match basin "
+                    f"type '{bdict['type']}', ignoring basin definition!")
+                continue
 
             # Basin initialization keyword arguments
             kwargs = {
